@@ -3,7 +3,7 @@ import json
 import subprocess
 import sys
 
-from . import adjacency, search, scc, serde, container, paired, cursor, ownership, locks
+from . import adjacency, search, scc, serde, container, paired, cursor, ownership, locks, sendsync, macros
 
 REGISTRY = {}
 REGISTRY.update(adjacency.CHECKS)
@@ -15,6 +15,8 @@ REGISTRY.update(paired.CHECKS)
 REGISTRY.update(cursor.CHECKS)
 REGISTRY.update(ownership.CHECKS)
 REGISTRY.update(locks.CHECKS)
+REGISTRY.update(sendsync.CHECKS)
+REGISTRY.update(macros.CHECKS)
 
 
 def replay(pid, path):
